@@ -605,4 +605,5 @@ static void ral_gen(Ctx& ctx) {
         }
 }
 
+VK_FRESH_THREADS;
 VK_MAIN("C08")
